@@ -489,7 +489,11 @@ package fs
 //@   ensures[C08] vdWritten(viso, 0, 1) && vdWritten(viso, 1, 2) && vdWritten(viso, 2, 255) @primary-supplementary-terminator
 //@   ensures[C08] viso.volumeDescriptors[0].Primary != nil && viso.volumeDescriptors[0].Primary.VolumeSpaceSize == viso.volumeSizeSectors && viso.volumeDescriptors[0].Primary.LogicalBlockSize == 2048 @primary-announces-the-volume-size
 //@   ensures[C08] viso.volumeDescriptors[1].Primary != nil && viso.volumeDescriptors[1].Primary.VolumeSpaceSize == viso.volumeSizeSectors && viso.volumeDescriptors[1].Primary.LogicalBlockSize == 2048 @supplementary-announces-the-volume-size
-//@   ensures[C08] viso.volumeDescriptors[0].Primary.TypeLPathTableLoc == 20 && viso.volumeDescriptors[0].Primary.TypeMPathTableLoc == 20 + secs(ptBytes(viso.pathTable.$arr, viso.pathTable.$off, len(viso.pathTable))) @path-table-locations
+//@   let ptS = secs(ptBytes(viso.pathTable.$arr, viso.pathTable.$off, len(viso.pathTable)))
+//@   let ptJS = secs(ptBytes(viso.pathTableJoliet.$arr, viso.pathTableJoliet.$off, len(viso.pathTableJoliet)))
+//@   ensures[C08] viso.volumeDescriptors[0].Primary.TypeLPathTableLoc == 20 && viso.volumeDescriptors[0].Primary.TypeMPathTableLoc == 20 + ptS @path-table-locations
+//@   ensures[C08] viso.volumeDescriptors[1].Primary.TypeLPathTableLoc == 20 + 2 * ptS && viso.volumeDescriptors[1].Primary.TypeMPathTableLoc == 20 + 2 * ptS + ptJS @joliet-path-table-locations-follow-both-iso-tables
+//@   ensures[C08] viso.volumeDescriptors[0].Primary.PathTableSize == ptBytes(viso.pathTable.$arr, viso.pathTable.$off, len(viso.pathTable)) && viso.volumeDescriptors[1].Primary.PathTableSize == ptBytes(viso.pathTableJoliet.$arr, viso.pathTableJoliet.$off, len(viso.pathTableJoliet)) @path-table-sizes
 //@   ensures[C08] parr(viso.volumeDescriptors[0].Primary.RootDirectoryEntry) == viso.rootDir[0].dirEntry.$arr && pidx(viso.volumeDescriptors[0].Primary.RootDirectoryEntry) == base(viso.rootDir[0].dirEntry) && parr(viso.volumeDescriptors[1].Primary.RootDirectoryEntry) == viso.rootDir[0].dirEntryJoliet.$arr && pidx(viso.volumeDescriptors[1].Primary.RootDirectoryEntry) == base(viso.rootDir[0].dirEntryJoliet) @root-records-are-the-first-records-of-the-root-directory
 //@   ensures[C04] vdOKv(viso.volumeDescriptors[0]) && vdOKv(viso.volumeDescriptors[1]) && vdOKv(viso.volumeDescriptors[2]) @descriptors-encodable
 //@   ensures fresh(viso.volumeDescriptors[0].Primary) && fresh(viso.volumeDescriptors[1].Primary)
